@@ -29,3 +29,96 @@ JD = [
 ]
 
 MODULES = [('JD', JD, '')]
+
+
+# ---------------------------------------------------------------------------------------------------------------------------------
+# Gen.JDOrth: CALL FOOTPRINT of LinAlg/Orthogonalization.h and of the two SearchSpace members that extend the basis, regenerated from
+# the clang AST on every run.  One row per (a) call of a free function, (b) member-function call, (c) local variable of a class-template
+# type, in source order inside every function template of Orthogonalization.h and inside SearchSpace::append_new_vectors_to_basis /
+# SearchSpace::extend_basis.  `C15.c15_extension_uses_householder_qr` reads off this table that the extension step is
+#   extend_basis -> twice_is_enough_orthogonalisation -> JensWehner_orthogonalisation (x2) -> subspace_orthogonalisation ; QR_orthogonalisation
+# and that QR_orthogonalisation takes the Q factor of an Eigen::HouseholderQR of the block: the kernel whose specification (orthonormal
+# block for EVERY input, rank deficient or not) the step replay checks on the recorded outputs.  Calling another routine there
+# (MGS_/GS_orthogonalisation: `normalize()` leaves a zero column for dependent corrections) changes the table and breaks the theorem.
+import os, re
+import astdump
+from xlate import XlateError
+
+ORTH_H = 'LinAlg/Orthogonalization.h'
+SPACE_H = 'LinAlg/SearchSpace.h'
+SPACE_FNS = ['append_new_vectors_to_basis', 'extend_basis']
+
+def _lstr(s): return '"' + str(s).replace('\\', '\\\\').replace('"', '\\"') + '"'
+
+def _off(loc):
+    if 'offset' not in loc: return None          # inside a macro expansion (assert): not part of the footprint
+    return loc['offset'], loc.get('tokLen', 0)
+
+def _text(src, node):
+    r = node.get('range', {}); b = _off(r.get('begin', {})); e = _off(r.get('end', {}))
+    if b is None or e is None: return None
+    return re.sub(r'\s+', ' ', src[b[0]: e[0] + e[1]]).strip()
+
+def _strip(n):
+    while n.get('kind') in ('ImplicitCastExpr', 'ParenExpr') and len(n.get('inner', []) or []) == 1: n = n['inner'][0]
+    return n
+
+def _rows_of(fname, node, src):
+    rows = []
+    def walk(n):
+        k = n.get('kind')
+        if k in ('FullComment', 'ParagraphComment'): return
+        if k in ('CallExpr', 'CXXMemberCallExpr') and n.get('inner'):
+            callee = _strip(n['inner'][0]); args = n['inner'][1:]
+            atxt = [_text(src, a) for a in args]
+            if all(t is not None for t in atxt) and _text(src, n) is not None:
+                ck = callee.get('kind')
+                if ck == 'UnresolvedLookupExpr': rows.append((fname, 'call', callee.get('name', '?'), ', '.join(atxt)))
+                elif ck == 'DeclRefExpr' and callee.get('referencedDecl', {}).get('kind') in ('FunctionDecl', 'CXXMethodDecl'):
+                    rows.append((fname, 'call', callee['referencedDecl'].get('name', '?'), ', '.join(atxt)))
+                elif ck == 'CXXDependentScopeMemberExpr':
+                    rows.append((fname, 'member', callee.get('member', '?'), (_text(src, callee['inner'][0]) if callee.get('inner') else 'this') + ' | ' + ', '.join(atxt)))
+                elif ck == 'MemberExpr':
+                    base = callee['inner'][0] if callee.get('inner') else {}
+                    rows.append((fname, 'member', callee.get('name', '?'), ('this' if base.get('kind') == 'CXXThisExpr' else (_text(src, base) or '?')) + ' | ' + ', '.join(atxt)))
+                elif ck == 'DependentScopeDeclRefExpr': rows.append((fname, 'call', _text(src, callee) or '?', ', '.join(atxt)))
+                else: raise XlateError('%s: call through an unsupported callee node %s' % (fname, ck))
+        if k == 'VarDecl':
+            qt = n.get('type', {}).get('qualType', '')
+            if '<' in qt:
+                init = [c for c in n.get('inner', []) or [] if isinstance(c, dict) and c.get('kind') not in ('FullComment',)]
+                itxt = _text(src, init[0]) if init else ''
+                rows.append((fname, 'local', qt, n.get('name', '?') + ' := ' + (itxt if itxt is not None else '?')))
+        for c in n.get('inner', []) or []:
+            if isinstance(c, dict): walk(c)
+    body = [c for c in node.get('inner', []) or [] if c.get('kind') == 'CompoundStmt']
+    if len(body) != 1: raise XlateError('%s: no body' % fname)
+    walk(body[0])
+    return rows
+
+def orth_calls(tu, t):
+    src = open(os.path.join(astdump.INC, 'Spectra', ORTH_H)).read()
+    names = re.findall(r'template\s*<[^>]*>\s*(?:inline\s+|static\s+)*[\w:<>&\s]+?\b(\w+)\s*\([^;{]*\)\s*\{', src)
+    if not names: raise XlateError('no function template found in ' + ORTH_H)
+    for need in ('QR_orthogonalisation', 'MGS_orthogonalisation', 'JensWehner_orthogonalisation', 'twice_is_enough_orthogonalisation', 'subspace_orthogonalisation'):
+        if need not in names: raise XlateError('%s not found in %s' % (need, ORTH_H))
+    if len(set(names)) != len(names): raise XlateError('overloaded function templates in ' + ORTH_H)
+    rows = []
+    for nm in names:
+        nodes = [x for x in astdump.find(tu.objs, nm) if any(c.get('kind') == 'CompoundStmt' for c in x.get('inner', []) or [])]
+        if len(nodes) != 1: raise XlateError('%s: %d definitions' % (nm, len(nodes)))
+        rows += _rows_of(nm, nodes[0], src)
+    ssrc = open(os.path.join(astdump.INC, 'Spectra', SPACE_H)).read()
+    for nm in SPACE_FNS:
+        nodes = [x for x in astdump.find(tu.objs, 'SearchSpace::' + nm) if any(c.get('kind') == 'CompoundStmt' for c in x.get('inner', []) or [])]
+        if len(nodes) != 1: raise XlateError('SearchSpace::%s: %d definitions' % (nm, len(nodes)))
+        rows += _rows_of('SearchSpace::' + nm, nodes[0], ssrc)
+    s = '-- one row of the call footprint: `kind` = "call" (free function, `callee` its name, `args` the argument text), "member" (member function `callee`, `args` = "object | arguments"), "local" (local variable of a class-template type `callee`, `args` = "name := initializer")\n'
+    s += 'structure OrthCall where\n  fn : String\n  kind : String\n  callee : String\n  args : String\n  deriving DecidableEq, Repr\n\n'
+    s += '/-- the function templates of `LinAlg/Orthogonalization.h`, in source order -/\n'
+    s += 'def orth_functions : List String := [' + ', '.join(_lstr(n) for n in names) + ']\n\n'
+    s += '/-- every call / member call / class-typed local in those functions and in `SearchSpace::append_new_vectors_to_basis`, `SearchSpace::extend_basis`, in source order -/\n'
+    s += 'def orth_calls : List OrthCall := [\n  ' + ',\n  '.join('{ fn := %s, kind := %s, callee := %s, args := %s }' % tuple(_lstr(x) for x in r) for r in rows) + ']\n'
+    return s
+
+MODULES += [('JDOrth', [dict(lean='orth_calls', header=ORTH_H, custom=orth_calls, path='Orthogonalization.h : * ; SearchSpace::extend_basis')], '')]
